@@ -1,5 +1,5 @@
 ----------------------------- MODULE Export_Api -----------------------------
 EXTENDS Json, SequencesExt, Integers, Sequences, FiniteSets, TLC
-A == INSTANCE Api WITH Threads <- {}, Programs <- {}, Alone <- << >>, running <- 0, done <- 0
+A == INSTANCE Api WITH Threads <- {}, Programs <- {}, Alone <- << >>, running <- 0, done <- 0, env <- 0
 ASSUME PrintT(<<"TABLE", ToJson([heads |-> SetToSeq(A!Heads), dict |-> A!Dict, contexts |-> A!Contexts])>>)
 =============================================================================
